@@ -256,3 +256,109 @@ def write_json(path, obj):
         json.dump(obj, f, indent=1, sort_keys=False)
         f.write("\n")
     os.replace(tmp, path)
+
+
+# ---------------------------------------------------------------------------
+# counterexample extraction straight from CBMC (the goto binary Kani built and instrumented for the verdict run),
+# WITH formula slicing.  Kani's own concrete-playback mode switches slicing off, which made some harnesses need
+# > 57 GB; this path needs about what the verdict run needs.  The trace is read the way Kani's driver reads it:
+# every return value of `kani::any_raw_internal::<T>` is one deterministic value (little-endian bytes).
+
+CBMC_FLAGS = ["--no-malloc-may-fail", "--no-undefined-shift-check", "--no-signed-overflow-check", "--nan-check",
+              "--no-self-loops-to-assumptions", "--no-pointer-primitive-check", "--object-bits", "16", "--sat-solver", "cadical", "--slice-formula"]
+
+
+def find_goto_binary(mdir, harness):
+    import glob
+    best = None
+    for mf in glob.glob(os.path.join(mdir, "target", "kani", "**", "*kani-metadata.json"), recursive=True):
+        try:
+            md = json.load(open(mf))
+        except Exception:
+            continue
+        for h in md.get("proof_harnesses", []):
+            if h.get("pretty_name") == harness:
+                out = h["goto_file"].replace(".symtab.out", ".out")
+                if os.path.exists(out):
+                    cand = (os.path.getmtime(out), out, h["attributes"].get("unwind_value"))
+                    if best is None or cand[0] > best[0]:
+                        best = cand
+    return best
+
+
+def cbmc_counterexample(mdir, harness, keys, timeout=2400, mem_gb=40):
+    """Returns list of (check_description, test_name, source) like extract_playback_tests, or [] ."""
+    found = find_goto_binary(mdir, harness)
+    if not found:
+        return [], "goto binary not found"
+    _, gb, unwind = found
+    cmd = ["cbmc"] + CBMC_FLAGS + (["--unwind", str(unwind)] if unwind else []) + [gb, "--trace", "--json-ui"]
+    outp = os.path.join(mdir, "ce-" + hashlib.sha256(harness.encode()).hexdigest()[:8] + ".json")
+    t0 = time.time()
+    try:
+        with open(outp, "w") as fo:
+            subprocess.run(cmd, cwd=mdir, stdout=fo, stderr=subprocess.DEVNULL, timeout=timeout, preexec_fn=_limit(mem_gb))
+    except subprocess.TimeoutExpired:
+        return [], "cbmc trace run timed out"
+    try:
+        data = json.load(open(outp))
+    except Exception as ex:
+        return [], f"unreadable cbmc output: {ex}"
+    finally:
+        try:
+            os.remove(outp)
+        except OSError:
+            pass
+    results = []
+    for item in data:
+        if isinstance(item, dict) and "result" in item:
+            results = item["result"]
+    short = harness.split("::")[-1]
+    tests = []
+    for r in results:
+        if r.get("status") != "FAILURE" or "trace" not in r:
+            continue
+        desc = r.get("description", "")
+        k = fail_key({"description": desc, "category": "assertion", "function": r.get("sourceLocation", {}).get("function", "")})
+        if not any(k == nk or (not re.match(r"^C\d\d", nk) and nk.split("@")[0].split(":", 1)[-1] in desc) for nk in keys):
+            continue
+        vals = []
+        SIZES = {"u8": 1, "i8": 1, "bool": 1, "u16": 2, "i16": 2, "u32": 4, "i32": 4, "char": 4, "u64": 8, "i64": 8, "usize": 8, "isize": 8, "u128": 16, "i128": 16}
+        open_call = False
+        for st in r["trace"]:
+            typ = st.get("stepType")
+            if typ == "function-call":
+                dn = (st.get("function") or {}).get("displayName", "")
+                if dn.startswith("kani::any_raw_internal"):
+                    # one deterministic value per call; a value the slicer dropped from the trace is irrelevant to the
+                    # failing property and replayed as zero, keeping later values aligned
+                    m = re.search(r"<([a-z0-9]+)>", dn)
+                    vals.append([0] * SIZES.get(m.group(1) if m else "", 1))
+                    open_call = True
+                continue
+            if typ != "assignment":
+                continue
+            fn = st.get("sourceLocation", {}).get("function", "")
+            lhs = st.get("lhs", "")
+            if not fn.startswith("kani::any_raw_internal") or not lhs.startswith("goto_symex$$return_value"):
+                continue
+            b = st.get("value", {}).get("binary")
+            if b is None:
+                continue
+            n = int(b, 2)
+            bytes_le = [(n >> (8 * i)) & 0xff for i in range(max(1, len(b) // 8))]
+            if open_call and vals:
+                vals[-1] = bytes_le
+                open_call = False
+            else:
+                vals.append(bytes_le)
+        if not vals:
+            continue
+        hsh = hashlib.sha256((harness + k + str(vals)).encode()).hexdigest()[:16]
+        name = f"kani_concrete_playback_{short}_{int(hsh, 16) % (10**18)}"
+        body = ",\n".join("        vec![" + ", ".join(str(x) for x in v) + "]" for v in vals)
+        src = (f"/// Counterexample of the solver for harness `{harness}`\n///\n/// Check for `assertion`: \"{desc}\"\n"
+               f"#[test]\nfn {name}() {{\n    let concrete_vals: Vec<Vec<u8>> = vec![\n{body}\n    ];\n"
+               f"    kani::concrete_playback_run(concrete_vals, {short});\n}}\n")
+        tests.append((desc, name, src))
+    return tests, f"cbmc trace run {time.time()-t0:.0f} s"
